@@ -145,6 +145,63 @@ def run(prog):
             pass
     if not homes:
         errs.append("no re-insertion found")
+    errs += old_capacity_uses(gr)
     out.append(inst("RH", "%s:rehome" % gr.npath, VIOLATION if errs else OK, gr, None,
                     "; ".join(errs) if errs else "re-homes every element at hash % cap"))
     return out
+
+
+def _is_cap(pl):
+    pr = pl.get("proj") or []
+    return pl.get("l") == 1 and len(pr) == 2 and pr[0].get("p") == "deref" and pr[1].get("p") == "field" and pr[1].get("name") == "cap"
+
+
+def old_capacity_uses(gr):
+    """grow() doubles self.cap and re-homes every element: a value of self.cap read *before* the store of the new
+    capacity is the old capacity; it may feed the computation of the new size and nothing else — neither the
+    modulus of a home slot nor the capacity handed to propagate (statement-level def-use on the MIR)."""
+    cfg = gr.cfg
+    store = None
+    reads = []
+    for bi, b in enumerate(gr.blocks):
+        for si, st in enumerate(b["stmts"]):
+            if st["k"] != "assign":
+                continue
+            if _is_cap(st["lhs"]):
+                store = (bi, si)
+            rv = st["rv"]
+            if rv["k"] == "use" and rv["op"]["k"] in ("copy", "move") and _is_cap(rv["op"]["place"]) and not st["lhs"]["proj"]:
+                reads.append((bi, si, st["lhs"]["l"]))
+    if store is None:
+        return ["grow never stores a new capacity"]
+    old = set()
+    for bi, si, l in reads:
+        after = (bi == store[0] and si > store[1]) or (bi != store[0] and cfg.dominates(store[0], bi))
+        if not after:
+            old.add(l)
+    # flow-insensitive closure through plain copies/moves
+    changed = True
+    while changed:
+        changed = False
+        for b in gr.blocks:
+            for st in b["stmts"]:
+                if st["k"] == "assign" and not st["lhs"]["proj"] and st["rv"]["k"] == "use" and \
+                        st["rv"]["op"]["k"] in ("copy", "move") and not st["rv"]["op"]["place"]["proj"] and \
+                        st["rv"]["op"]["place"]["l"] in old and st["lhs"]["l"] not in old:
+                    old.add(st["lhs"]["l"])
+                    changed = True
+    errs = []
+    for b in gr.blocks:
+        for st in b["stmts"]:
+            if st["k"] == "assign" and st["rv"]["k"] == "bin" and st["rv"]["op"] == "Rem":
+                o = st["rv"]["b"]
+                if o["k"] in ("copy", "move") and not o["place"]["proj"] and o["place"]["l"] in old:
+                    errs.append("line %s: elements are re-homed at hash %% (capacity read before the growth): lookups start at "
+                                "hash %% (new capacity), so about half of the old nodes are never found again and are duplicated"
+                                % st.get("line"))
+        t = b["term"]
+        if t["k"] == "call" and ((t.get("fn") or {}).get("def") or "").endswith("propagate"):
+            for a in t["args"]:
+                if a["k"] in ("copy", "move") and not a["place"]["proj"] and a["place"]["l"] in old:
+                    errs.append("line %s: propagate is given the capacity read before the growth" % t.get("line"))
+    return errs
